@@ -243,6 +243,18 @@ func evalComparableInfixExpression(operator string, left, right Object) Object {
 		return evalNullInfixExpression(operator, left, right)
 	}
 
+	if left.Type() != right.Type() {
+		// values of different types are never equal and have no order between them
+		switch operator {
+		case "=":
+			return FALSE
+		case "<>":
+			return TRUE
+		}
+
+		return newError("type mismatch: %s %s %s", left.Type(), operator, right.Type())
+	}
+
 	switch left.Type() {
 	case ObjectTypeNumber:
 		return evalNumberInfixExpression(operator, left, right)
